@@ -124,6 +124,15 @@ CHECKS['C12'] = dict(
     design='7 (C12)',
     category='proof')
 
+CHECKS['C13'] = dict(
+    technique='Lean 4 model of the _Context tables of an extends chain with theorems (lookup = nearest definer; super = next definer above the writing module) + C01 refinement for the flattened grammar + chain-vs-flattening differential correspondence',
+    text=('Proof: C13_late_binding (the table the generated epilogue builds binds every name to the nearest level of the chain that defines it, for chains of any length) and C13_super; the flattened grammar is decided by the core model (C01). '
+          'Tie: random chains of 2-3 grammars (overridden / inherited / new rules, super references at every level, ignore declarations named and anonymous in base and derived levels, dotted names, templates overridden and rules passed as arguments) '
+          'are parsed through every level and compared with the flattened grammar compiled by the real code; flattened grammars are compared with the Lean model; base modules are re-observed after children (and a sibling reusing a name) were created. '
+          'PARTIAL: sys.modules/importlib have no model; what an ignore declared only in a derived grammar does to inherited rules is not constrained by the property and not checked.'),
+    note='Trusted as for C01; the flattening function is part of the harness.',
+    design='7 (C13)')
+
 NOT_YET = {
 }
 
